@@ -23,7 +23,7 @@ META = {
     "rule": ("full products: (records over the alphabet, n<=8, plus identifiable records) x order 0..5; (grid kind x n x ASD over {0,1,2.5}^n x band "
              "pairs); df option product; all cases distinct; non-trivial: records/ASDs that are not identically zero"),
     "exhaustive": True,
-    "bounds": {"quick": "detrend n=1..7 exhaustive + n in {30,200} identifiable; rms grids of 2..6 points", "thorough": "detrend n<=8, rms grids to 8 points"},
+    "bounds": {"quick": "detrend n=1..7 exhaustive + n in {30,200,7000,60000} identifiable; rms grids of 2..6 points", "thorough": "detrend n<=8, rms grids to 8 points"},
     "assumptions": ["orthogonality demanded to 1e-7*||x||*||t^k|| (least-squares fit of a degree<=5 monomial basis on up to 200 points)",
                     "statistical clause (time-domain RMS of broadband data within a few percent) not claimed"],
 }
@@ -125,12 +125,12 @@ def _detrend_long(shard):
 
     out = {"evals": 0, "nontrivial": 0, "failures": [], "samples": [], "extra": {}}
     seen = set()
-    for n in (30, 200):
+    for n in (30, 200, 7000, 60000):
         t = np.arange(n, dtype=float)
-        for nm in ("id1", "id2", "id3", "pow", "seed0"):
+        for nm in (("id1", "id2", "id3", "pow", "seed0") if n <= 200 else ("id1", "id3")):
             x = records.get(nm, n, shard["seed"])
             for order in range(0, 6):
-                for trend in (None, 3.0 + 0.2 * t, 1e3 - 5 * t + 0.01 * t * t):
+                for trend in ((None, 3.0 + 0.2 * t, 1e3 - 5 * t + 0.01 * t * t) if n <= 200 else (None, 3.0 + 1e-3 * t)):
                     xx = x if trend is None else x + trend
                     out["evals"] += 1
                     out["nontrivial"] += 1
